@@ -611,9 +611,8 @@ LEVEL_NOTE = ("Trusted: Lean kernel + propext/Classical.choice/Quot.sound; fidel
               "g++-12/ASan/UBSan; libstdc++ as oracle for spec validation. Members listed in coverage.correspondence_only are "
               "modelled and compared on every run but have no Lean theorem yet. The replace family (overwrites only) and the "
               "default pos of rfind are known findings; self-aliasing arguments are not explored.")
-CORRESPONDENCE_ONLY = ["etl::erase(c, value) (remove_if + erase)", "replace family (known finding: overwrites only)",
+CORRESPONDENCE_ONLY = ["replace family (known finding: overwrites only)",
                        "find/rfind/find_first_of/find_first_not_of/find_last_of/find_last_not_of, starts_with/ends_with/contains "
                        "(delegation to the C08 string_view model incl. strings::find wrap-around and the pos<size() guard of find_first_of)",
                        "copy(dest,count,pos)", "operator[]/front/back",
-                       "operator+ (constructor + append; follows from the proved members, not stated)",
-                       "overload resolution of the argument range (Arg.src vs Arg.den: C-string length, sub-view, temporary substr)"]
+                       "operator+ (constructor + append; follows from the proved members, not stated)"]
